@@ -19,6 +19,7 @@ var bigEight = big.NewInt(8)
 
 type config struct {
 	win    int // reference window |k| <= win
+	fwin   int // the same for field elements
 	nrand  int // random strings per decoder
 	seed   uint64
 	only   map[string]bool
@@ -67,6 +68,7 @@ type pointRun[P any] struct {
 	w     *tr.W
 	cfg   config
 	known map[string]*projection // validity of projected elements, computed once each
+	negOK bool
 	win   []pt                   // oracle [k]G, index k + W
 	real  []P                    // library [k]G
 }
@@ -179,18 +181,34 @@ func (r *pointRun[P]) buildWindow() {
 		r.win[W+k], r.win[W-k] = acc, accN
 		r.real[W+k] = r.a.add(r.real[W+k-1], realG)
 	}
-	// negative multiples of the real element: through the group law only (k G = (k + 1) G - G is not available
-	// without Neg in every API shape, so build them as (order - k) G is too long; use decoding-free doubling chain:
-	// -G is obtained from the oracle through the affine constructor and checked by G + (-G) = identity.
-	ng, err := r.a.fromAffine(r.affineXY(nG))
-	if err != nil {
-		panic(r.a.name + ": cannot build -G through the affine constructor: " + err.Error())
+	// negative multiples of the real element: -G comes from the oracle through the affine constructor (second door: the
+	// library's Neg) and is checked by G + (-G) = identity; if neither door works the window is one-sided and a
+	// "build" line records it
+	var ng P
+	okN := false
+	for _, door := range []func() (P, error){
+		func() (P, error) { return r.a.fromAffine(r.affineXY(nG)) },
+		func() (P, error) { return r.a.neg(realG), nil },
+	} {
+		var err error
+		if msg := guard(func() { ng, err = door() }); msg == "" && err == nil {
+			if pr := r.project(r.a.add(realG, ng)); pr.str != "" && cm.isIdentity(pr.p) {
+				okN = true
+				break
+			}
+		}
 	}
-	if pr := r.project(r.a.add(realG, ng)); !cm.isIdentity(pr.p) {
-		panic(r.a.name + ": G + (-G) is not the identity")
-	}
+	r.negOK = okN
 	for k := 1; k <= W; k++ {
-		r.real[W-k] = r.a.add(r.real[W-k+1], ng)
+		if okN {
+			r.real[W-k] = r.a.add(r.real[W-k+1], ng)
+		} else {
+			r.real[W-k] = r.real[W+k]
+			r.win[W-k] = r.win[W+k]
+		}
+	}
+	if !okN {
+		r.w.Emit(map[string]any{"a": "build", "curve": r.a.name, "label": "-G", "ok": false, "panic": false, "err": "no door to -G"})
 	}
 	for i, p := range r.win {
 		r.known[ptStr(cm, p)] = &projection{str: ptStr(cm, p), onc: true, insub: true, p: p}
